@@ -6,6 +6,7 @@ package profiledb
 // running one did when the cache was written.
 
 import (
+	"bytes"
 	"context"
 	"errors"
 	"fmt"
@@ -18,6 +19,8 @@ import (
 	"time"
 
 	"github.com/AdguardTeam/AdGuardDNS/internal/agd"
+	"github.com/AdguardTeam/AdGuardDNS/internal/profiledb/internal"
+	"github.com/AdguardTeam/AdGuardDNS/internal/profiledb/internal/filecachepb"
 	"github.com/AdguardTeam/golibs/logutil/slogutil"
 	"pgregory.net/rapid"
 	"verif.local/harness/vstat"
@@ -117,14 +120,15 @@ func (w *vc14rtWorld) owner(k vc14rtKey) (p *vc14rtProfSpec, d *vc14rtDevSpec) {
 
 func TestVerifC14rtRestart(t *testing.T) {
 	st := vstat.New("C14", "profiledb.restart",
-		"rapid histories of backend snapshots (devices move between profiles, keys change owner, profiles vanish), a drawn subset of the records is used (access verdicts, rate limiter, schedule, authentication) before it is synchronised and stored, partial and full synchronisations of a profiledb.Default with a real *.pb cache file and lookups; after every full sync a second Default is opened on the file and all lookups by device id, human id, linked ip and dedicated ip are compared with the running database and with the snapshot (identity and every setting); the restarted database may take over and continue with partial syncs; non-trivial = a restart check where the file was overwritten by a later full sync or partial syncs preceded it; distinct by history",
+		"rapid histories of backend snapshots (fresh ones and near misses of the previous one: one device moved, one key changed or swapped, one setting changed), starting from a missing / unreadable / truncated / other-version cache file, with full syncs whose store fails, a drawn subset of the records is used (access verdicts, rate limiter, schedule, authentication) before it is synchronised and stored, partial and full synchronisations of a profiledb.Default with a real *.pb cache file and lookups; after every full sync a second Default is opened on the file and all lookups by device id, human id, linked ip and dedicated ip are compared with the running database and with the snapshot (identity and every setting); the restarted database may take over and continue with partial syncs; non-trivial = a restart check where the file was overwritten by a later full sync or partial syncs preceded it; distinct by history",
 		"restart-after-partial-syncs", "restart-of-overwritten-file", "restarted-db-continues-with-partial-sync",
 		"key-changed-owner-between-full-syncs", "found-by-dev", "found-by-linked", "found-by-ded", "found-by-human", "not-found",
-		"used-before-store", "used-before-store-with-domain-rules", "device-used-before-store")
+		"used-before-store", "used-before-store-with-domain-rules", "device-used-before-store",
+		"restart-after-near-miss-change", "start-from-unreadable-file", "start-from-other-version-file", "store-failed")
 	st.Finish(t)
 	vc14rtNeedZones(t)
 
-	dir := t.TempDir()
+	dir := vc14rtScratchDir(t)
 	ctx := context.Background()
 	logger := slogutil.NewDiscardLogger()
 	keys := vc14rtAllKeys()
@@ -168,14 +172,66 @@ func TestVerifC14rtRestart(t *testing.T) {
 			return db
 		}
 
-		db := newDB()
-		for _, k := range keys {
-			if p, d, err := vc14rtLookup(ctx, db, k); err == nil {
-				fail("database without a cache file: %s found %v %v", k, p.ID, d.ID)
+		// Failure at construction time: the file the database starts from may be
+		// missing, unreadable, cut short or of another format version.  New must
+		// come up empty (profiledb.New: "an empty profiledb is returned"), and
+		// the first full sync must replace the file.
+		cl := map[string]bool{}
+		startKind := rapid.SampledFrom([]string{"missing", "missing", "garbage", "truncated", "other-version", "empty"}).Draw(t, "startFile")
+		switch startKind {
+		case "garbage":
+			// An over-long varint tag first: can never decode.
+			b := append(bytes.Repeat([]byte{0xff}, 11), rapid.SliceOfN(rapid.Byte(), 0, 200).Draw(t, "garbage")...)
+			if err := os.WriteFile(path, b, 0o600); err != nil {
+				t.Fatalf("harness: %v", err)
+			}
+
+			cl["start-from-unreadable-file"] = true
+		case "empty":
+			if err := os.WriteFile(path, nil, 0o600); err != nil {
+				t.Fatalf("harness: %v", err)
+			}
+
+			cl["start-from-unreadable-file"] = true
+		case "truncated", "other-version":
+			ow := vc14rtDrawWorld(t, 1, false)
+			op, od := ow.build(est)
+			ver := int32(internal.FileCacheVersion)
+			if startKind == "other-version" {
+				ver += int32(rapid.SampledFrom([]int{-1, 1}).Draw(t, "versionDelta"))
+			}
+
+			err := filecachepb.New(logger, path, est).Store(ctx, &internal.FileCache{SyncTime: time.Unix(1_600_000_000, 0), Profiles: op, Devices: od, Version: ver})
+			if err != nil {
+				t.Fatalf("harness: %v", err)
+			}
+
+			if startKind == "truncated" {
+				// The version is the last field of the file: any proper
+				// prefix lacks it or does not decode.
+				b, rerr := os.ReadFile(path)
+				if rerr != nil || len(b) < 2 {
+					t.Fatalf("harness: %v (%d octets)", rerr, len(b))
+				}
+
+				if err = os.WriteFile(path, b[:rapid.IntRange(1, len(b)-1).Draw(t, "keepOctets")], 0o600); err != nil {
+					t.Fatalf("harness: %v", err)
+				}
+
+				cl["start-from-unreadable-file"] = true
+			} else {
+				cl["start-from-other-version-file"] = true
 			}
 		}
 
-		cl := map[string]bool{}
+		hist = append(hist, "start with cache file: "+startKind)
+		db := newDB()
+		for _, k := range keys {
+			if p, d, err := vc14rtLookup(ctx, db, k); err == nil {
+				fail("database started from a %s cache file: %s found %v %v", startKind, k, p.ID, d.ID)
+			}
+		}
+
 		var world, prevFull *vc14rtWorld
 		known := map[agd.ProfileID]bool{}
 		var lastSync time.Time
@@ -183,6 +239,7 @@ func TestVerifC14rtRestart(t *testing.T) {
 		fulls, partialsSinceFull := 0, 0
 		adopted := false
 		nontrivial := false
+		tweaked := false
 		var usedP map[*agd.Profile]bool
 		var usedD map[*agd.Device]bool
 
@@ -248,6 +305,13 @@ func TestVerifC14rtRestart(t *testing.T) {
 
 			if reqTime.After(lastSync) {
 				fail("the request's sync time %v is later than the last synchronisation point %v", reqTime, lastSync)
+			}
+
+			// StorageProfilesResponse.SyncTime: "the time that should be saved
+			// and used as the next ProfilesRequest.SyncTime" -- also by a
+			// database restarted from the file.
+			if !full && !reqTime.Equal(lastSync) {
+				fail("partial sync (restarted database: %t) asked for changes since %v, the last synchronisation point is %v", adopted, reqTime, lastSync)
 			}
 
 			if !full && adopted && reqTime.Equal(lastSync) {
@@ -365,6 +429,12 @@ func TestVerifC14rtRestart(t *testing.T) {
 				nontrivial = true
 			}
 
+			if tweaked && fulls > 1 {
+				cl["restart-after-near-miss-change"] = true
+			}
+
+			tweaked = false
+
 			if rapid.Bool().Draw(t, "adopt") {
 				hist = append(hist, "the restarted database takes over")
 				db = db2
@@ -386,12 +456,94 @@ func TestVerifC14rtRestart(t *testing.T) {
 			verify(sync(true))
 		}
 
+		// identical tells whether db answers every key exactly as snapshot w
+		// says (identity only).
+		identical := func(w *vc14rtWorld) bool {
+			for _, k := range keys {
+				p, d, err := vc14rtLookup(ctx, db, k)
+				wp, wd := w.owner(k)
+				if (err == nil) != (wp != nil) || (err == nil && (p.ID != wp.ID || d.ID != wd.ID)) {
+					return false
+				}
+			}
+
+			return true
+		}
+
 		steps := rapid.IntRange(1, 7).Draw(t, "steps")
 		for i := 0; i < steps; i++ {
-			switch rapid.SampledFrom([]string{"world", "world", "partial", "partial", "full", "lookup"}).Draw(t, "op") {
+			switch rapid.SampledFrom([]string{"world", "tweak", "tweak", "partial", "partial", "full", "lookup", "storeFails"}).Draw(t, "op") {
 			case "world":
 				world = vc14rtDrawWorld(t, 1, false)
+				tweaked = false
 				hist = append(hist, "backend: "+vc14rtDescribe(world))
+			case "tweak":
+				if world == nil {
+					fullAndVerify()
+
+					continue
+				}
+
+				// A near miss of the previous snapshot: exactly one change.
+				var what string
+				world, what = vc14rtTweakWorld(t, world)
+				tweaked = true
+				hist = append(hist, "backend changes one thing: "+what)
+			case "storeFails":
+				if fulls == 0 {
+					fullAndVerify()
+
+					continue
+				}
+
+				// The cache directory disappears: the full sync gets its data
+				// but cannot store it.  Refresh must report that; the running
+				// database must answer either entirely from the new snapshot
+				// or entirely from the previous one; a database started now
+				// finds no file.
+				prev := prevFull
+				if partialsSinceFull > 0 {
+					prev = nil
+				}
+
+				world = vc14rtDrawWorld(t, 1, false)
+				hist = append(hist, "backend: "+vc14rtDescribe(world), "cache directory removed, full sync")
+				if err := os.RemoveAll(cdir); err != nil {
+					t.Fatalf("harness: %v", err)
+				}
+
+				db.lastFullSync, db.lastFullSyncError = time.Time{}, time.Time{}
+				seq++
+				respTime := time.Unix(int64(1_700_000_000+seq), 0)
+				profs, devs := world.build(est)
+				stor.next = func(*StorageProfilesRequest) (*StorageProfilesResponse, error) {
+					return &StorageProfilesResponse{SyncTime: respTime, Profiles: profs, Devices: devs}, nil
+				}
+				err := db.Refresh(ctx)
+				stor.next = nil
+				if err == nil {
+					fail("Refresh returned no error although the cache could not be stored")
+				}
+
+				if !identical(world) && (prev == nil || !identical(prev)) {
+					fail("after a full sync whose store failed (%v) the running database answers neither from the new nor from the previous snapshot", err)
+				}
+
+				db2 := newDB()
+				for _, k := range keys {
+					if p, d, lerr := vc14rtLookup(ctx, db2, k); lerr == nil {
+						fail("database started without a cache file: %s found %v %v", k, p.ID, d.ID)
+					}
+				}
+
+				if err = os.Mkdir(cdir, 0o700); err != nil {
+					t.Fatalf("harness: %v", err)
+				}
+
+				cl["store-failed"] = true
+				usedP, usedD = nil, nil
+				lastSync = respTime
+				fullAndVerify()
 			case "partial":
 				if fulls == 0 {
 					fullAndVerify()
